@@ -208,6 +208,24 @@ func c13Malformed(c *Ctx) {
 		}
 		c.Sample(map[string]interface{}{"malformed_recipe": s.name})
 	}
+	// a capitalisation scheme that is none of the defined constants: a password or an error, never a panic
+	for _, sch := range oddSchemes {
+		rec := spg.NewWLRecipe(3, three)
+		rec.Capitalize = spg.CapScheme(sch)
+		for _, sf := range []spg.SFFunction{nil, spg.SFDigits1} {
+			rec.SeparatorFunc = sf
+			g := runGen(*rec, nil)
+			c.Exec(1)
+			c.Distinct("nontrivial", "undefined-scheme|"+sch)
+			if g.Panic != nil {
+				c.Violate("panic-on-undefined-capitalisation-scheme", fmt.Sprintf("NewWLRecipe(3, three) with Capitalize=%q: Generate() panicked: %v", sch, g.Panic), map[string]interface{}{"scheme": sch, "panic": fmt.Sprint(g.Panic)})
+				break
+			}
+			if g.Pw != nil && g.Err != nil {
+				c.Violate("password-and-error", fmt.Sprintf("NewWLRecipe(3, three) with Capitalize=%q returned both a password and an error", sch), nil)
+			}
+		}
+	}
 	// well-formed boundary shapes that must succeed
 	for _, ok := range []shape{
 		{"NewWLRecipe(3, one-word list)", *spg.NewWLRecipe(3, one)},
